@@ -143,8 +143,26 @@ fn site_of(loc: &str) -> (String, String) {
     if std::env::var("C01_DEBUG_BT").is_ok() {
         eprintln!("BT for {}:\n{}", loc, bt);
     }
-    let start = frames.iter().position(|f| f.1 == loc).unwrap_or(0);
     let in_repo = |f: &&(String, String)| f.1.starts_with(&root) && !f.1.contains("verif_hooks.rs");
+    let start = match frames.iter().position(|f| f.1 == loc) {
+        Some(k) => k,
+        None if in_allsorts => {
+            // the panicking frame carries no line information (a generic instantiation without it): it is the
+            // frame right after the panic machinery, and the panic location says which file it is in
+            const MACHINERY: [&str; 12] = ["site_of", "{closure", "<alloc::boxed::Box", "std::panicking", "std::sys::backtrace", "__rustc", "core::panicking", "core::result::unwrap_failed", "core::option::", "core::slice::index", "core::str::", "core::cell::panic"];
+            let k = frames.iter().position(|f| !(MACHINERY.iter().any(|m| f.0.starts_with(m)) && !f.1.starts_with(&root))).unwrap_or(0);
+            if let Some(f) = frames.get(k) {
+                let name = tidy_fn(&f.0);
+                if f.1.is_empty() && !name.is_empty() {
+                    let mut g = FN_CACHE.lock().unwrap();
+                    g.get_or_insert_with(HashMap::new).insert(loc.to_string(), name.clone());
+                    return (file_of(loc), name);
+                }
+            }
+            k
+        }
+        None => 0,
+    };
     let first = frames[start..].iter().find(in_repo);
     // a closure has no name of its own: the enclosing named function is the next allsorts frame
     let named = frames[start..].iter().filter(in_repo).map(|f| tidy_fn(&f.0)).find(|n| !n.is_empty());
